@@ -36,6 +36,9 @@ struct ThreadState
   std::uint32_t oneIn = 0;      // a perturbation point fires with probability 1/oneIn
   std::uint32_t points = 0;     // bit mask of enabled perturbation points
   std::uint64_t fired = 0;
+  std::uint32_t scriptedEntryUs = 0; // one-shot: sleep this long at the next cond-wait entry
+  std::uint32_t lockCount = 0;       // pthread_mutex_lock calls since scriptLockDelay()
+  std::uint32_t scriptedLockIndex = 0, scriptedLockUs = 0; // one-shot: sleep before the n-th lock
 };
 
 enum Point : std::uint32_t
@@ -109,10 +112,40 @@ struct Arm
   Arm &operator=(const Arm &) = delete;
 };
 
+/// plan-scripted delay: the calling thread sleeps `us` at its next cond-wait entry, i.e. after it
+/// evaluated the wait predicate and before it parks (no-op without interposition)
+inline void scriptEntryDelay(std::uint32_t us) { ts().scriptedEntryUs = us; }
+
+/// plan-scripted delay: the calling thread sleeps `us` before its n-th (1-based) pthread_mutex_lock
+/// from now on (no-op without interposition)
+inline void scriptLockDelay(std::uint32_t nth, std::uint32_t us)
+{
+  ThreadState &s = ts();
+  s.lockCount = 0;
+  s.scriptedLockIndex = nth;
+  s.scriptedLockUs = us;
+}
+
 /// called by the interposed functions
 inline void perturb(std::uint32_t point)
 {
   ThreadState &s = ts();
+  if (point == kCondWaitEntry && s.scriptedEntryUs)
+  {
+    std::uint32_t us = s.scriptedEntryUs;
+    s.scriptedEntryUs = 0;
+    ++s.fired;
+    sleepUs(us);
+    return;
+  }
+  if (point == kMutexLock && s.scriptedLockUs && ++s.lockCount == s.scriptedLockIndex)
+  {
+    std::uint32_t us = s.scriptedLockUs;
+    s.scriptedLockUs = 0;
+    ++s.fired;
+    sleepUs(us);
+    return;
+  }
   if (!s.armed || !(s.points & point)) return;
   if (pick(s.oneIn) != 0) return;
   ++s.fired;
